@@ -1,5 +1,5 @@
 import AsynqModel.Lib.Futures
-/-! helper lemmas for C10: the observer `Watch` simulates the future `Fut` -/
+/-! helper lemmas for C10: the observer `Watch` simulates the future `Fut`; run counting; stability of a computed future -/
 namespace AsynqModel.Futures
 
 /-- the observer's state mirrors the future (simulation relation used for `C10_spec_holds`) -/
@@ -8,14 +8,33 @@ structure Rel (k : Kind) (w : Watch) (f : Fut) : Prop where
   known : w.known = f.out
   subs : w.subs = f.subs
   runs : w.runs = f.runs
-  bound : f.runs ≤ w.resets + (if f.out.isSome then 1 else 0)
+  done : k.isTask = true → w.done = !f.alive
   sink : k.sinking = true → f.subs = []
+
+/-- a subscriber called with a future that holds `o` makes exactly the notification the property asks for -/
+theorem notifyOne_of_out (f : Fut) (o : Outc) (h : f.out = some o) (s : Sub) : notifyOne f s = notif o s := by
+  cases s with
+  | mk i b => cases b <;> simp [notifyOne, notif, innerRes, expInner, h]
 
 theorem matchCbs_self (o : Outc) (late removed : List Nat) (subs : List Sub) :
     matchCbs o late (marks removed subs) (subs.map (notif o)) = true := by
   induction subs generalizing removed with
   | nil => simp [marks, matchCbs]
   | cons s ss ih => simp [marks, matchCbs, notif, ih]
+
+/-- `complete` stores first and notifies afterwards: every subscriber sees the new outcome -/
+theorem complete_cbs (f : Fut) (o : Outc) : (complete f o).2 = f.subs.map (notif o) := by
+  simp only [complete]
+  apply List.map_congr_left
+  intro s _
+  exact notifyOne_of_out _ o rfl s
+
+/-- `complete` in closed form -/
+theorem complete_eq (f : Fut) (o : Outc) :
+    complete f o = ({ f with out := some o, alive := false, subs := afterNotify f.subs }, f.subs.map (notif o)) := by
+  have h := complete_cbs f o
+  simp only [complete] at h ⊢
+  rw [h]
 
 /-- the notifications the model produces for a completion are accepted by the observer's clause -/
 theorem notifiedAll_self (subs : List Sub) (o : Outc) :
@@ -27,13 +46,16 @@ theorem notifiedAll_self (subs : List Sub) (o : Outc) :
 @[simp] theorem eraseSub_nil (j : Nat) : eraseSub [] j = [] := rfl
 
 theorem rel_init (k : Kind) : Rel k (watchInit k) (init k) := by
-  cases k <;> constructor <;> simp [watchInit, init, Kind.sinking]
+  cases k <;> constructor <;> simp [watchInit, init, Kind.sinking, Kind.isTask]
+
+local macro "rel_fields" : tactic => `(tactic| (constructor <;> (try simp_all [Kind.sinking, Kind.isTask])))
+local macro "rel_close" : tactic => `(tactic| first | (refine ⟨_, rfl, ?_⟩; rel_fields) | rel_fields)
 
 local macro "rel_step_tac" : tactic => `(tactic| (
   cases hk : (‹Fut›).kind <;> cases ho : (‹Fut›).out <;> cases ha : (‹Fut›).alive <;>
-    simp_all [watchStep, observe, step, compute, complete, readOk, readValue, readError, Kind.sinking,
-      notifiedAll_self] <;>
-    (split <;> first | omega | (refine ⟨_, rfl, ?_⟩; constructor <;> simp_all [Kind.sinking] <;> omega))))
+    simp_all [watchStep, observe, step, compute, complete_eq, readOk, freshReadOk, computeOk, Kind.natural, Kind.isTask,
+      readValue, readError, Kind.sinking, notifiedAll_self] <;>
+    (try rel_close)))
 
 theorem rel_step_value (k : Kind) (w : Watch) (f : Fut) (h : Rel k w f) :
     ∃ w', watchStep k w (observe f .value).2 = .ok w' ∧
@@ -77,6 +99,13 @@ theorem rel_step_setError (k : Kind) (w : Watch) (f : Fut) (e : Nat) (h : Rel k 
   subst hk
   rel_step_tac
 
+theorem rel_step_setErrorNone (k : Kind) (w : Watch) (f : Fut) (h : Rel k w f) :
+    ∃ w', watchStep k w (observe f .setErrorNone).2 = .ok w' ∧
+      Rel k { w' with runs := (observe f .setErrorNone).2.runs } (observe f .setErrorNone).1 := by
+  obtain ⟨hk, hkn, hs, hr, hb, hsink⟩ := h
+  subst hk
+  rel_step_tac
+
 theorem rel_step_reset (k : Kind) (w : Watch) (f : Fut) (h : Rel k w f) :
     ∃ w', watchStep k w (observe f .reset).2 = .ok w' ∧
       Rel k { w' with runs := (observe f .reset).2.runs } (observe f .reset).1 := by
@@ -98,7 +127,7 @@ theorem rel_step_unsubscribe (k : Kind) (w : Watch) (f : Fut) (i : Nat) (h : Rel
   subst hk
   cases hh : hasSub f.subs i <;> cases hk : f.kind <;> cases ho : f.out <;>
     simp_all [watchStep, observe, step, unsubStep, Kind.sinking] <;>
-    (split <;> first | omega | (refine ⟨_, rfl, ?_⟩; constructor <;> simp_all [Kind.sinking] <;> omega))
+    (try rel_close)
 
 theorem rel_step (k : Kind) (w : Watch) (f : Fut) (op : Op) (h : Rel k w f) :
     ∃ w', watchStep k w (observe f op).2 = .ok w' ∧
@@ -110,6 +139,7 @@ theorem rel_step (k : Kind) (w : Watch) (f : Fut) (op : Op) (h : Rel k w f) :
   | isComputed => exact rel_step_isComputed k w f h
   | setValue v => exact rel_step_setValue k w f v h
   | setError e => exact rel_step_setError k w f e h
+  | setErrorNone => exact rel_step_setErrorNone k w f h
   | reset => exact rel_step_reset k w f h
   | subscribe i r => exact rel_step_subscribe k w f i r h
   | unsubscribe i => exact rel_step_unsubscribe k w f i h
@@ -123,35 +153,73 @@ theorem watchRun_ok (k : Kind) (ops : List Op) (w : Watch) (f : Fut) (h : Rel k 
     simp only [run, watchRun, h1]
     exact ih _ _ h2
 
-theorem unsubStep_resets (k : Kind) (w w' : Watch) (i : Nat) (r : Res) (h : unsubStep k w i r = .ok w') :
-    w'.resets = w.resets := by
-  unfold unsubStep at h
-  repeat' split at h
-  all_goals (first | contradiction | (injection h with h; subst h; rfl))
+/-! ### how often the computation runs -/
 
-theorem watchStep_resets (k : Kind) (w w' : Watch) (ob : Obs) (h : watchStep k w ob = .ok w') :
-    w'.resets = w.resets + (if ob.op = .reset then 1 else 0) := by
-  unfold watchStep at h
-  simp only at h
-  repeat' split at h
-  all_goals (first | contradiction | (injection h with h; subst h; simp_all) |
-    (have := unsubStep_resets _ _ _ _ _ h; simp_all))
+/-- per operation: the provider / task body runs at most once more, never when the future is computed, and only in a
+    read (`value()`, call, `error()`) that finds the future uncomputed -/
+theorem runs_step (f : Fut) (op : Op) :
+    (step f op).1.runs ≤ f.runs + 1 ∧ (f.out.isSome → (step f op).1.runs = f.runs) ∧
+    ((step f op).1.runs = f.runs + 1 → f.out = none ∧ (op = .value ∨ op = .call ∨ op = .error)) := by
+  cases op <;> cases ho : f.out <;> cases hk : f.kind <;> cases ha : f.alive <;>
+    simp_all [step, compute, complete_eq] <;> (repeat' split) <;> simp_all
 
-theorem runs_bound (k : Kind) (ops : List Op) (w : Watch) (f : Fut) (h : Rel k w f) :
-    (finalState f ops).runs ≤ w.resets + ops.count .reset + 1 := by
-  induction ops generalizing w f with
-  | nil =>
-    have := h.bound
-    simp only [finalState, List.count_nil]
-    split at this <;> omega
+/-- 1 if the future holds an outcome (its allowance of one run is used up), else 0 -/
+def used (f : Fut) : Nat := if f.out.isSome then 1 else 0
+
+/-- a run of the computation is paid for by the future becoming computed; only `reset_unsafe()` of a COMPUTED future
+    gives the allowance back -/
+theorem runs_potential (f : Fut) (op : Op) :
+    (step f op).1.runs + used f ≤
+      f.runs + used (step f op).1 + (if op = .reset ∧ f.out.isSome then 1 else 0) := by
+  cases op <;> cases ho : f.out <;> cases hk : f.kind <;> cases ha : f.alive <;>
+    simp_all [step, compute, complete_eq, used] <;> (repeat' split) <;> simp_all
+
+/-- the resets of a history that found the future computed -/
+def effResets (f : Fut) : List Op → Nat
+  | [] => 0
+  | op :: ops => (if op = .reset ∧ f.out.isSome then 1 else 0) + effResets (observe f op).1 ops
+
+theorem observe_fst (f : Fut) (op : Op) : (observe f op).1 = (step f op).1 := rfl
+
+theorem runs_effResets (ops : List Op) (f : Fut) :
+    (finalState f ops).runs + used f ≤ f.runs + used (finalState f ops) + effResets f ops := by
+  induction ops generalizing f with
+  | nil => simp [finalState, effResets]
   | cons op ops ih =>
-    obtain ⟨w', h1, h2⟩ := rel_step k w f op h
-    have := ih _ _ h2
-    have hres := watchStep_resets k w w' _ h1
-    simp only [finalState]
-    have hop : (observe f op).2.op = op := rfl
-    rw [hop] at hres
-    simp only [List.count_cons] at *
-    by_cases hop' : op = .reset <;> simp_all <;> omega
+    have h1 := runs_potential f op
+    have h2 := ih (observe f op).1
+    simp only [finalState, effResets, observe_fst] at *
+    omega
+
+theorem effResets_le_count (ops : List Op) (f : Fut) : effResets f ops ≤ ops.count .reset := by
+  induction ops generalizing f with
+  | nil => simp [effResets]
+  | cons op ops ih =>
+    have := ih (observe f op).1
+    simp only [effResets, List.count_cons]
+    by_cases hop : op = .reset
+    · subst hop; simp only [true_and, beq_self_eq_true, if_true]; split <;> omega
+    · simp [hop]; omega
+
+theorem used_le (f : Fut) : used f ≤ 1 := by unfold used; split <;> omega
+
+/-! ### a computed future stays as it is until `reset_unsafe()` -/
+
+/-- what an operation on a future computed with `o` has to answer -/
+def stableRes (o : Outc) (subs : List Sub) (sinking : Bool) : Op → Res
+  | .value | .call => readValue o
+  | .error => readError o
+  | .isComputed => .bool true
+  | .setValue _ | .setError _ | .setErrorNone => .raised .alreadyComputed
+  | .reset => .unit
+  | .subscribe _ _ => .unit
+  | .unsubscribe j => if sinking || hasSub subs j then .unit else .raised .notSubscribed
+
+/-- one operation other than `reset_unsafe()` on a computed future: outcome, run counter and kind unchanged, nobody
+    notified, the answer is the report of the outcome (reads) / FutureIsAlreadyComputed (sets) -/
+theorem computed_step (f : Fut) (o : Outc) (op : Op) (h : f.out = some o) (hr : op ≠ .reset) :
+    (step f op).1.out = some o ∧ (step f op).1.runs = f.runs ∧ (step f op).1.kind = f.kind ∧
+    (step f op).2.2 = [] ∧ (step f op).2.1 = stableRes o f.subs f.kind.sinking op := by
+  cases op <;> simp_all [step, stableRes] <;> (repeat' split) <;> simp_all
 
 end AsynqModel.Futures
